@@ -64,7 +64,8 @@ def process_all_requirements(pyscript_folder, requirements_paths, requirements_f
     all_requirements_to_process = {}
     for root in requirements_paths:
         for requirements_path in glob.glob(os.path.join(pyscript_folder, root, requirements_file)):
-            with open(requirements_path, encoding="utf-8") as requirements_fp:
+            # utf-8-sig: a byte order mark (files saved by Windows editors) is not part of the first package name
+            with open(requirements_path, encoding="utf-8-sig") as requirements_fp:
                 all_requirements_to_process[requirements_path] = requirements_fp.readlines()
 
     all_requirements_to_install = {}
@@ -103,8 +104,11 @@ def process_all_requirements(pyscript_folder, requirements_paths, requirements_f
                     # any other invalid line, wherever it comes in the files
                     Version(new_version)
                 pkg_name = parts[0].strip()
-                if not pkg_name:
-                    raise ValueError("missing package name")
+                # the distribution name, without an [extras] suffix; anything that is not a name
+                # (options, "pkg=1.0", "pkg 1.0", direct references) is an unsupported form
+                dist_name = pkg_name.split("[", 1)[0].strip() if pkg_name.endswith("]") else pkg_name
+                if not dist_name.replace("-", "").replace("_", "").replace(".", "").isalnum():
+                    raise ValueError("not a package name")
 
                 current_pinned_version = all_requirements_to_install.get(pkg_name, {}).get(ATTR_VERSION)
                 current_sources = all_requirements_to_install.get(pkg_name, {}).get(ATTR_SOURCES, [])
@@ -113,7 +117,7 @@ def process_all_requirements(pyscript_folder, requirements_paths, requirements_f
                     all_requirements_to_install[pkg_name] = {
                         ATTR_VERSION: new_version,
                         ATTR_SOURCES: [requirements_path],
-                        ATTR_INSTALLED_VERSION: get_installed_version(pkg_name),
+                        ATTR_INSTALLED_VERSION: get_installed_version(dist_name),
                     }
 
                 # If the new version is unpinned and there is an existing pinned version, use existing
@@ -145,7 +149,7 @@ def process_all_requirements(pyscript_folder, requirements_paths, requirements_f
                     all_requirements_to_install[pkg_name] = {
                         ATTR_VERSION: new_version,
                         ATTR_SOURCES: [requirements_path],
-                        ATTR_INSTALLED_VERSION: get_installed_version(pkg_name),
+                        ATTR_INSTALLED_VERSION: get_installed_version(dist_name),
                     }
                 # If the already recorded version is the same as the new version, append the current
                 # path so we can show sources
@@ -153,6 +157,9 @@ def process_all_requirements(pyscript_folder, requirements_paths, requirements_f
                     new_version == UNPINNED_VERSION and current_pinned_version == UNPINNED_VERSION
                 ) or Version(current_pinned_version) == Version(new_version):
                     all_requirements_to_install[pkg_name][ATTR_SOURCES].append(requirements_path)
+                    # equal versions written differently ("2.0", "2.0.0"): keep one spelling whatever the order
+                    if (len(new_version), new_version) > (len(current_pinned_version), current_pinned_version):
+                        all_requirements_to_install[pkg_name][ATTR_VERSION] = new_version
                 # If the already recorded version is lower than the new version, use the new one
                 elif Version(current_pinned_version) < Version(new_version):
                     _LOGGER.warning(
@@ -233,10 +240,9 @@ async def install_requirements(hass, config_entry, pyscript_folder):
                 # If installed package is not the same version as the one we last installed,
                 # that means that the package is externally managed now so we shouldn't touch it
                 # and should remove it from our internal tracker
-                if (
-                    package in pyscript_installed_packages
-                    and pyscript_installed_packages[package] != pkg_installed_version
-                ):
+                if package in pyscript_installed_packages and Version(
+                    pyscript_installed_packages[package]
+                ) != Version(pkg_installed_version):
                     pyscript_installed_packages.pop(package)
                 continue
 
